@@ -157,7 +157,8 @@ Qed.
 Lemma read_time_strict : forall n, strict_on n read_time.
 Proof.
   intros n. unfold read_time. apply strict_bind_l; [apply read_n_strict; lia|].
-  intros d. cbv zeta. destruct (unle d =? 0); apply safe_ret.
+  intros d. cbv zeta. destruct (unle d =? 0); [apply safe_ret|].
+  destruct ((to_signed 8 (unle d) - time_offset) * 100 =? zero_time_ns); apply safe_ret.
 Qed.
 
 Lemma dec_n_safe : forall A n (d : dec A) k, safe_on n d -> safe_on n (dec_n d k).
